@@ -396,11 +396,24 @@ func (c19) RunCase(c *core.Ctx) {
 		}
 		inputs = append(inputs, inp{data: d, val: gen.ValueTree(c.R, n, gen.InOpts{ValidPct: 55, AbsentPct: 35}, false)})
 	}
+	// sometimes a pointer schema is fed a pointer of exactly the destination's pointer type (the optional fields of one struct
+	// parsed into another): what such an input *means* is not specified (results are not compared for these inputs), but Parse
+	// must not write through it
+	ptrInputs := map[int]bool{}
+	if c.R.Intn(8) == 0 {
+		for i := range inputs {
+			if d, ok := pointerLeaves(n, inputs[i].data); ok {
+				inputs[i].data = d
+				ptrInputs[i] = true
+			}
+		}
+	}
 	firstResult := map[string]string{}
 	uses := c.R.Range(2, 6)
 	var history []string
 	for u := 0; u < uses; u++ {
-		in := inputs[c.R.Intn(len(inputs))]
+		inIdx := c.R.Intn(len(inputs))
+		in := inputs[inIdx]
 		mode := ref.Parse
 		if c.R.Bool() && n.Kind != spec.Pre {
 			mode = ref.Validate
@@ -473,7 +486,9 @@ func (c19) RunCase(c *core.Ctx) {
 			res = obs.Multiset(out.Issues, func(ci obs.CI) string { return ci.Key + "|" + ci.Triple() + "|" + ci.Message + "|" + ci.Params })
 		}
 		key := fmt.Sprintf("%s|%s|%x|%v", mode, obs.Render(obs.Norm(input)), obs.Snapshot(input), spare) // (an appending transform sees whether an empty slice owns a buffer)
-		if prev, ok := firstResult[key]; ok && prev != res {
+		if mode == ref.Parse && ptrInputs[inIdx] {
+			c.Count("parses_of_inputs_with_pointer_leaves", 1)
+		} else if prev, ok := firstResult[key]; ok && prev != res {
 			c.Violation("schema-behaves-differently-on-later-use|"+mode.String(), det(map[string]any{"first_result": prev, "this_result": res}))
 			return
 		}
@@ -481,6 +496,26 @@ func (c19) RunCase(c *core.Ctx) {
 		if mode == ref.Validate {
 			if d := unchangedWhereNoWriter(n, in.val, out.Dest, "$"); d != "" {
 				c.Violation("validate-changed-value-without-default-catch-posttransform", det(map[string]any{"change": d, "value_after": obs.Render(out.Dest)}))
+				return
+			}
+		}
+		// handing the result back with the Collect helpers is part of the documented usage: it must not reach the schema either
+		if c.R.Intn(3) == 0 {
+			if out.IsMap {
+				if c.R.Bool() {
+					z.Issues.CollectMap(out.RawMap)
+				} else {
+					_ = z.Issues.SanitizeMapAndCollect(out.RawMap)
+				}
+			} else {
+				if c.R.Bool() {
+					z.Issues.CollectList(out.RawList)
+				} else {
+					_ = z.Issues.SanitizeListAndCollect(out.RawList)
+				}
+			}
+			c.Count("results_handed_to_collect", 1)
+			if !check("by-collecting-the-result") {
 				return
 			}
 		}
@@ -511,6 +546,40 @@ func (c19) RunCase(c *core.Ctx) {
 			c.Sample(map[string]any{"schema": src, "history": history})
 		}
 	}
+}
+
+// pointerLeaves replaces, at Ptr(primitive) positions of the input whose value already has the pointee's Go type, the value by a
+// pointer to it. ok=false: no such position.
+func pointerLeaves(n *spec.Node, data any) (any, bool) {
+	switch n.Kind {
+	case spec.Struct:
+		m, ok := data.(map[string]any)
+		if !ok {
+			return data, false
+		}
+		out := map[string]any{}
+		for k, v := range m {
+			out[k] = v
+		}
+		any1 := false
+		for i := range n.Fields {
+			f := &n.Fields[i]
+			key := f.DataKey("")
+			if v, has := m[key]; has {
+				if nv, ok := pointerLeaves(f.Node, v); ok {
+					out[key], any1 = nv, true
+				}
+			}
+		}
+		return out, any1
+	case spec.Ptr:
+		if n.Elem.Kind.IsPrimitive() && data != nil && reflect.TypeOf(data) == n.Elem.GoType() {
+			p := reflect.New(n.Elem.GoType())
+			p.Elem().Set(reflect.ValueOf(data))
+			return p.Interface(), true
+		}
+	}
+	return data, false
 }
 
 // aliasDest pre-populates slice positions of the destination with slices that share their backing array with the input (the
